@@ -51,12 +51,16 @@
 #include <type_traits>
 #include <vector>
 
+// one type for both translation units (a type in an unnamed namespace would be a different type in each of them, and
+// the handler in c20.cpp would not recognise what c20_scripts.cpp throws)
+struct c20_bad_op : std::runtime_error
+{
+  c20_bad_op() : std::runtime_error("bad-op") {}
+};
+
 namespace
 {
-struct bad_op : std::runtime_error
-{
-  bad_op() : std::runtime_error("bad-op") {}
-};
+using bad_op = c20_bad_op;
 
 // ---------------------------------------------------------------- result types
 enum class e1 { v0, fcppt_maximum = v0 };
